@@ -178,6 +178,13 @@ Definition xlogy (x y : T N) : T N := if eqb N x (zero N) then zero N else mul N
 Definition poisson_logpmf (k : nat) (rate : T N) : T N :=                                   (* 113-114 *)
   sub N (sub N (xlogy (ofZ N (Z.of_nat k)) rate) rate) (lgamma1 k).
 Definition poisson_pmf (k : nat) (rate : T N) : T N := exp N (poisson_logpmf k rate).       (* 94 *)
+(* The same two functions with the infinity made explicit (None = -inf), so that the boundary rate = 0 - accepted by
+   Poisson.validate, the point mass at 0 - has a meaning in the real-number reading, where ln 0 is not -inf:
+   xlogy(k, 0) = k * log 0 = -inf for k > 0 and xlogy(0, 0) = 0; every other term is finite. *)
+Definition poisson_logpmf_ext (k : nat) (rate : T N) : option (T N) :=
+  if andb (eqb N rate (zero N)) (negb (Nat.eqb k 0)) then None else Some (poisson_logpmf k rate).
+Definition poisson_pmf_ext (k : nat) (rate : T N) : T N :=                                  (* exp(-inf) = 0 *)
+  match poisson_logpmf_ext k rate with None => zero N | Some l => exp N l end.
 (* torch.special.gammaincc(a, x) at an integer a >= 1: the regularised upper incomplete gamma function
    has the closed form Q(a, x) = exp(-x) * sum_{j < a} x^j / j!   (DLMF 8.4.10) *)
 Definition gammaincc_nat (a : nat) (x : T N) : T N :=
